@@ -10,7 +10,8 @@ open Mud
 /-- `quad <method> n a b …` → n points then n weights
     methods: 0 midpoint, 1 trapezoid, 2 simpson (odd n only, else `err`),
              3 gauss-legendre (followed by leggauss t.. w..), 4 gl-pinned,
-             5 clenshaw-curtis (followed by pi and the s = n-1 real parts of the ifft) -/
+             5 clenshaw-curtis (followed by pi and the s = n-1 real parts of the ifft),
+             6 clenshaw-curtis with the model's own inverse DFT (followed by pi) -/
 def opQuad : Op := do
   let method ← nat
   let n ← nat
@@ -37,6 +38,13 @@ def opQuad : Op := do
     let wcc ← arr (n - 1) flt
     let f : Nat → Float := fun j => wcc.getD j 0.0
     pure (oVec (ccPts n pi a b) ++ oVec (ccWts n f a b))
+  | 6 =>
+    -- Clenshaw–Curtis entirely inside the model: the inverse FFT is the model's own inverse DFT of `ccH`
+    let pi ← flt
+    let s := n - 1
+    let hv : Array Float := Array.ofFn (fun j : Fin s => ccH (α := Float) s j)
+    let tab : Array Float := Array.ofFn (fun k : Fin s => ccIdft s pi (fun j => hv.getD j.val 0.0) k.val)
+    pure (oVec (ccPts n pi a b) ++ oVec (ccWts n (fun j => tab.getD j 0.0) a b))
   | _ => throw "unknown-quadrature"
 
 /-- `cch s` → the `s` entries of `h = v + g` handed to the inverse FFT -/
